@@ -312,6 +312,29 @@ def replay(path):
                 print(f'REPRODUCED property={PROP} key={v[0]} :: {v[1][:300]}')
                 found = found or v[0] == data['key']
             prev = data_s
+        # violations found along a chained path ("[same process and database as the previous events]"): the recorded
+        # history ends with the removal; replay it in this process with the read-only calls before the removal and
+        # each chained add after it, as the explorer does
+        if hist and hist[-1][0] == 'remove':
+            mm = s.initial_model()
+            for ev in hist[:-1]:
+                mm = s.mstep(mm, ev)
+            for ev2 in s.chain_events(mm, hist[-1], s.mstep(mm, hist[-1])):
+                env.fresh_db()
+                w2 = env.new_dir('rp')
+                try:
+                    for ev in hist[:-1]:
+                        s.apply(ev, w2)
+                    s.warm(mm, hist[-1])
+                    s.apply(hist[-1], w2)
+                    s.apply(ev2, w2)
+                    V, _ = s.check_state(s.mstep(s.mstep(mm, hist[-1]), ev2), None, hist + [ev2])
+                except wn.Error:
+                    V = []
+                env.close_pool()
+                for v in V:
+                    print(f'REPRODUCED property={PROP} key={v[0]} :: {v[1][:300]} [chained]')
+                    found = found or v[0] == data['key']
     if found:
         print(f'VIOLATION property={PROP} replay={path}')
         return 1
